@@ -182,8 +182,13 @@ def extract(src):
         if len(calls) != 1:
             raise Bad('add_notfound_view: %d _derive_view calls' % len(calls))
         kw = _kw(calls[0])
-        if set(kw) - {'attr', 'renderer', 'permission'} or len(calls[0].args) != 1:
+        if set(kw) - {'attr', 'renderer', 'permission', 'require_csrf'} or len(calls[0].args) != 1:
             raise Bad('add_notfound_view: _derive_view arguments %s' % sorted(kw))
+        # /repo 901900e (finding C14-appendslash-notfound-checks-csrf): the inner view is derived with require_csrf=False; the
+        # model's Slash body has no CSRF check, so the only acceptable explicit value is the literal False
+        if 'require_csrf' in kw and not (isinstance(kw['require_csrf'], ast.Constant) and kw['require_csrf'].value is False):
+            raise Bad('add_notfound_view: _derive_view(require_csrf=%s) -- the model derives the inner view without a CSRF check'
+                      % u(kw['require_csrf']))
         vals['slash_inner_permission'] = env[_name(kw['permission'])] if 'permission' in kw else None
     guard('add_notfound_view append_slash derivation', slash)
 
